@@ -57,7 +57,7 @@ type lockKind struct {
 	contract types.Address
 }
 
-var lockKinds = []lockKind{{"fusion", types.PlasmaContract}, {"stake", types.StakeContract}, {"htlc", types.HtlcContract}}
+var lockKinds = []lockKind{{"fusion", types.PlasmaContract}, {"stake", types.StakeContract}, {"htlc", types.HtlcContract}, {"liquidity-stake", types.LiquidityContract}}
 
 type lockEntry struct {
 	send  map[string]*nom.AccountBlock // kind -> creating send
@@ -179,6 +179,36 @@ func locksReplayChunk(run *core.Run, prop string, keep []*lockBehaviour, offset 
 	}
 	setHtlcSpork(id)
 	users := map[string]*wallet.KeyPair{"u1": g.User1, "u2": g.User2}
+	// the liquidity contract takes stakes of the tokens its administrator listed: a lab token, listed through the two time challenges
+	constants.InitialBridgeAdministrator.SetBytes(g.User5.Address.Bytes())
+	constants.MinAdministratorDelay, constants.MinSoftDelay, constants.MinGuardians = 4, 2, 4
+	lqIssue, err := p.Submit(&nom.AccountBlock{BlockType: nom.BlockTypeUserSend, Address: g.User1.Address, ToAddress: types.TokenContract, TokenStandard: types.ZnnTokenStandard, Amount: constants.TokenIssueAmount,
+		Data: definition.ABIToken.PackMethodPanic(definition.IssueMethodName, "locks-liquidity", "LQ", "", unitsOf(2000000), unitsOf(2000000), uint8(8), false, true, false)}, g.User1)
+	if err != nil {
+		core.Fatal("locks replay: issue refused: %v", err)
+	}
+	lq := types.NewZenonTokenStandard(lqIssue.Hash.Bytes())
+	core.Must(p.ProduceN(3))
+	w.ReceivePending(g.User1)
+	core.Must(p.ProduceN(1))
+	if _, err := p.Submit(&nom.AccountBlock{BlockType: nom.BlockTypeUserSend, Address: g.User1.Address, ToAddress: g.User2.Address, TokenStandard: lq, Amount: unitsOf(1000000)}, g.User1); err != nil {
+		core.Fatal("locks replay: sharing the liquidity token refused: %v", err)
+	}
+	adminCall := func(data []byte, delay int) {
+		for k := 0; k < 2; k++ {
+			if _, err := p.Submit(&nom.AccountBlock{BlockType: nom.BlockTypeUserSend, Address: g.User5.Address, ToAddress: types.LiquidityContract, TokenStandard: types.ZeroTokenStandard, Amount: big.NewInt(0), Data: data}, g.User5); err != nil {
+				core.Fatal("locks replay: liquidity administration refused: %v", err)
+			}
+			core.Must(p.ProduceN(delay + 4))
+		}
+	}
+	adminCall(definition.ABILiquidity.PackMethodPanic(definition.NominateGuardiansMethodName, []types.Address{g.User1.Address, g.User2.Address, g.User3.Address, g.User4.Address}), int(constants.MinAdministratorDelay))
+	adminCall(definition.ABILiquidity.PackMethodPanic(definition.SetTokenTupleMethodName, []string{lq.String()}, []uint32{10000}, []uint32{10000}, []*big.Int{big.NewInt(1000)}), int(constants.MinSoftDelay))
+	w.ReceivePending(g.User2)
+	core.Must(p.ProduceN(1))
+	if li, err := definition.GetLiquidityInfo(p.Chain.GetFrontierMomentumStore().GetAccountStore(types.LiquidityContract).Storage()); err != nil || len(li.TokenTuples) != 1 {
+		core.Fatal("locks replay: the liquidity token tuple is not set (%v)", err)
+	}
 	t0 := time.Now()
 	for bi0, b := range keep {
 		bi := bi0 + offset
@@ -244,6 +274,9 @@ func locksReplayChunk(run *core.Run, prop string, keep []*lockBehaviour, offset 
 					case "htlc":
 						blk, err = p.Submit(&nom.AccountBlock{BlockType: nom.BlockTypeUserSend, Address: e.owner.Address, ToAddress: k.contract, TokenStandard: types.ZnnTokenStandard, Amount: amt,
 							Data: definition.ABIHtlc.PackMethodPanic(definition.CreateHtlcMethodName, e.ben.Address, exp, uint8(0), uint8(32), types.NewHash(e.pre).Bytes())}, e.owner)
+					case "liquidity-stake":
+						blk, err = p.Submit(&nom.AccountBlock{BlockType: nom.BlockTypeUserSend, Address: e.owner.Address, ToAddress: k.contract, TokenStandard: lq, Amount: amt,
+							Data: definition.ABILiquidity.PackMethodPanic(definition.LiquidityStakeMethodName, constants.StakeTimeMinSec)}, e.owner)
 					}
 					if err != nil {
 						core.Fatal("locks replay: deposit (%s) refused at send time: %v", k.name, err)
@@ -270,6 +303,8 @@ func locksReplayChunk(run *core.Run, prop string, keep []*lockBehaviour, offset 
 						data = definition.ABIStake.PackMethodPanic(definition.CancelStakeMethodName, e.send[k.name].Hash)
 					case s.A == "Withdraw" && k.name == "htlc":
 						data = definition.ABIHtlc.PackMethodPanic(definition.ReclaimHtlcMethodName, e.send[k.name].Hash)
+					case s.A == "Withdraw" && k.name == "liquidity-stake":
+						data = definition.ABILiquidity.PackMethodPanic(definition.CancelLiquidityStakeMethodName, e.send[k.name].Hash)
 					case s.A == "Unlock" && k.name == "htlc":
 						pre := e.pre
 						if s.Pre == "wrong" {
